@@ -92,6 +92,22 @@ pub enum Expression {
   FnName(FunctionName, FunctionType),
 }
 
+/// Variable and parameter names are source identifiers; a few of them are reserved words in
+/// JavaScript / TypeScript (samlang identifiers never contain `_`, so the suffix cannot collide).
+fn push_ts_identifier(collector: &mut String, name: &str) {
+  collector.push_str(name);
+  if matches!(
+    name,
+    "arguments" | "await" | "break" | "case" | "catch" | "continue" | "debugger" | "default"
+      | "delete" | "do" | "enum" | "eval" | "export" | "extends" | "finally" | "for"
+      | "implements" | "in" | "instanceof" | "new" | "null" | "package" | "protected"
+      | "return" | "static" | "super" | "switch" | "throw" | "try" | "typeof" | "undefined"
+      | "var" | "void" | "while" | "with" | "yield"
+  ) {
+    collector.push('_');
+  }
+}
+
 impl Expression {
   pub fn int32(value: i32) -> Self {
     Self::Int32Literal(value)
@@ -110,7 +126,7 @@ impl Expression {
         let i32_form = i * 2 + 1;
         collector.push_str(&i32_form.to_string())
       }
-      Self::Variable(n, _) => collector.push_str(n.as_str(heap)),
+      Self::Variable(n, _) => push_ts_identifier(collector, n.as_str(heap)),
       Self::StringName(n) => {
         collector.push_str("GLOBAL_STRING_");
         collector.push_str(&str_table.get(n).unwrap().to_string());
@@ -245,7 +261,7 @@ impl Statement {
       Self::IsPointer { name, pointer_type: _, operand } => {
         Self::append_spaces(collector, level);
         collector.push_str("let ");
-        collector.push_str(name.as_str(heap));
+        push_ts_identifier(collector, name.as_str(heap));
         collector.push_str(" = typeof ");
         operand.pretty_print(collector, heap, symbol_table, str_table);
         collector.push_str(" === 'object';\n");
@@ -253,7 +269,7 @@ impl Statement {
       Self::Not { name, operand } => {
         Self::append_spaces(collector, level);
         collector.push_str("let ");
-        collector.push_str(name.as_str(heap));
+        push_ts_identifier(collector, name.as_str(heap));
         collector.push_str(" = !");
         operand.pretty_print(collector, heap, symbol_table, str_table);
         collector.push_str(";\n");
@@ -261,7 +277,7 @@ impl Statement {
       Self::Binary { name, operator, e1, e2 } => {
         Self::append_spaces(collector, level);
         collector.push_str("let ");
-        collector.push_str(name.as_str(heap));
+        push_ts_identifier(collector, name.as_str(heap));
         collector.push_str(" = ");
         match *operator {
           BinaryOperator::DIV => {
@@ -331,7 +347,7 @@ impl Statement {
       Self::IndexedAccess { name, type_, pointer_expression, index } => {
         Self::append_spaces(collector, level);
         collector.push_str("let ");
-        collector.push_str(name.as_str(heap));
+        push_ts_identifier(collector, name.as_str(heap));
         collector.push_str(": ");
         type_.pretty_print(collector, heap, symbol_table);
         collector.push_str(" = ");
@@ -344,7 +360,7 @@ impl Statement {
         Self::append_spaces(collector, level);
         if let Some(c) = return_collector {
           collector.push_str("let ");
-          collector.push_str(c.as_str(heap));
+          push_ts_identifier(collector, c.as_str(heap));
           collector.push_str(": ");
           return_type.pretty_print(collector, heap, symbol_table);
           collector.push_str(" = ");
@@ -358,7 +374,7 @@ impl Statement {
         for (n, t, _, _) in final_assignments {
           Self::append_spaces(collector, level);
           collector.push_str("var ");
-          collector.push_str(n.as_str(heap));
+          push_ts_identifier(collector, n.as_str(heap));
           collector.push_str(": ");
           t.pretty_print(collector, heap, symbol_table);
           collector.push_str(";\n");
@@ -379,7 +395,7 @@ impl Statement {
         }
         for (n, _, v1, _) in final_assignments {
           Self::append_spaces(collector, level + 1);
-          collector.push_str(n.as_str(heap));
+          push_ts_identifier(collector, n.as_str(heap));
           collector.push_str(" = ");
           v1.pretty_print(collector, heap, symbol_table, str_table);
           collector.push_str(";\n");
@@ -398,7 +414,7 @@ impl Statement {
         }
         for (n, _, _, v2) in final_assignments {
           Self::append_spaces(collector, level + 1);
-          collector.push_str(n.as_str(heap));
+          push_ts_identifier(collector, n.as_str(heap));
           collector.push_str(" = ");
           v2.pretty_print(collector, heap, symbol_table, str_table);
           collector.push_str(";\n");
@@ -430,7 +446,7 @@ impl Statement {
       Self::Break(break_value) => {
         if let Some((break_collector_str, _)) = break_collector {
           Self::append_spaces(collector, level);
-          collector.push_str(break_collector_str.as_str(heap));
+          push_ts_identifier(collector, break_collector_str.as_str(heap));
           collector.push_str(" = ");
           break_value.pretty_print(collector, heap, symbol_table, str_table);
           collector.push_str(";\n");
@@ -442,7 +458,7 @@ impl Statement {
         for v in loop_variables {
           Self::append_spaces(collector, level);
           collector.push_str("let ");
-          collector.push_str(v.name.as_str(heap));
+          push_ts_identifier(collector, v.name.as_str(heap));
           collector.push_str(": ");
           v.type_.pretty_print(collector, heap, symbol_table);
           collector.push_str(" = ");
@@ -452,7 +468,7 @@ impl Statement {
         if let Some((n, t)) = break_collector {
           Self::append_spaces(collector, level);
           collector.push_str("let ");
-          collector.push_str(n.as_str(heap));
+          push_ts_identifier(collector, n.as_str(heap));
           collector.push_str(": ");
           t.pretty_print(collector, heap, symbol_table);
           collector.push_str(";\n");
@@ -471,7 +487,7 @@ impl Statement {
         }
         for v in loop_variables {
           Self::append_spaces(collector, level + 1);
-          collector.push_str(v.name.as_str(heap));
+          push_ts_identifier(collector, v.name.as_str(heap));
           collector.push_str(" = ");
           v.loop_value.pretty_print(collector, heap, symbol_table, str_table);
           collector.push_str(";\n");
@@ -482,7 +498,7 @@ impl Statement {
       Self::Cast { name, type_, assigned_expression } => {
         Self::append_spaces(collector, level);
         collector.push_str("let ");
-        collector.push_str(name.as_str(heap));
+        push_ts_identifier(collector, name.as_str(heap));
         collector.push_str(" = ");
         assigned_expression.pretty_print(collector, heap, symbol_table, str_table);
         collector.push_str(" as unknown as ");
@@ -492,14 +508,14 @@ impl Statement {
       Self::LateInitDeclaration { name, type_ } => {
         Self::append_spaces(collector, level);
         collector.push_str("let ");
-        collector.push_str(name.as_str(heap));
+        push_ts_identifier(collector, name.as_str(heap));
         collector.push_str(": ");
         type_.pretty_print(collector, heap, symbol_table);
         collector.push_str(" = undefined as any;\n");
       }
       Self::LateInitAssignment { name, assigned_expression } => {
         Self::append_spaces(collector, level);
-        collector.push_str(name.as_str(heap));
+        push_ts_identifier(collector, name.as_str(heap));
         collector.push_str(" = ");
         assigned_expression.pretty_print(collector, heap, symbol_table, str_table);
         collector.push_str(";\n");
@@ -507,7 +523,7 @@ impl Statement {
       Self::StructInit { struct_variable_name, type_, expression_list } => {
         Self::append_spaces(collector, level);
         collector.push_str("let ");
-        collector.push_str(struct_variable_name.as_str(heap));
+        push_ts_identifier(collector, struct_variable_name.as_str(heap));
         collector.push_str(": ");
         type_.pretty_print(collector, heap, symbol_table);
         collector.push_str(" = [");
@@ -539,12 +555,12 @@ impl Function {
     collector.push('(');
     let mut iter = self.parameters.iter().zip(&self.type_.argument_types);
     if let Some((n, t)) = iter.next() {
-      collector.push_str(n.as_str(heap));
+      push_ts_identifier(collector, n.as_str(heap));
       collector.push_str(": ");
       t.pretty_print(collector, heap, symbol_table);
       for (n, t) in iter {
         collector.push_str(", ");
-        collector.push_str(n.as_str(heap));
+        push_ts_identifier(collector, n.as_str(heap));
         collector.push_str(": ");
         t.pretty_print(collector, heap, symbol_table);
       }
